@@ -23,7 +23,7 @@ optional key "iter": v — after the history, `dag_iterator(node v)` of the fina
 lean/BigtreeProofs/Properties/DagBridge.lean (only generated for checks-on histories with pairwise distinct names).
 """
 from __future__ import annotations
-import gc, itertools, json, random, sys
+import gc, itertools, json, random, sys, zlib
 import core
 from core import hx
 from runner import Case
@@ -1079,16 +1079,16 @@ def _distinct_names(d) -> bool:
     return len(set(names)) == len(names)
 
 
-def with_iter(d, t, rng):
-    """ask for dag_iterator of the final state too (it keys its visited set by name: distinct names only)"""
+def with_iter(d, t):
+    """ask for dag_iterator of the final state too (it keys its visited set by name: distinct names only); the start
+    node is a function of the case itself, so the random stream of the generator is left as it was"""
     if d["asrt"] == 1 and d["n"] >= 1 and _distinct_names(d):
-        return dict(d, iter=rng.randrange(d["n"])), tuple(t) + ("iter",)
+        return dict(d, iter=zlib.crc32(line_of(d).encode()) % d["n"]), tuple(t) + ("iter",)
     return d, t
 
 
 def gen(rng, tier):
-    sub_it = random.Random(rng.random())
-    cases = [mk_case(*with_iter(d, t, sub_it)) for d, t in gen_histories(rng, tier, 0.25, asrt=1)]
+    cases = [mk_case(*with_iter(d, t)) for d, t in gen_histories(rng, tier, 0.25, asrt=1)]
     cases += [mk_case(d, t) for d, t in gen_shared_exhaustive(random.Random(rng.random()), tier)]
     if tier == "thorough":
         cases += [mk_case(d, t) for d, t in gen_exhaustive4(rng, 12)]
